@@ -1,4 +1,5 @@
 import TcheranVerif.Proofs.MagicCert
+import TcheranVerif.Proofs.Sweep.S12  -- only to bound how many parts are checked at once (≈8 GB each)
 /-! C07 sweep, part 16: rook squares [9, 10, 11, 12] — decided by the kernel alone -/
 namespace Tcheran.Sweep
 
